@@ -5,6 +5,8 @@ import NPModel.Driver.Ops
 import NPModel.Spec.Frame
 import NPModel.Impl.Dtype
 import NPModel.Impl.Names
+import NPModel.State.Kinds
+import NPModel.Impl.IO
 open Lean
 namespace NP
 
@@ -166,6 +168,50 @@ def runFrameOp (op : String) (j : Json) : P (Json × Json) := do
         | .keyError => Json.mkObj [("err", .str "KeyError")]
         | .valueError => Json.mkObj [("err", .str "ValueError")]
       pure (enc r, .null)
+  | "kinds.run" => do
+    -- closure model: apply a chain of abstract operations to the kinds of a frame
+    let kindOf := fun (jj : Json) => do
+      match jj with
+      | .str "base" => pure State.ColKind.base
+      | .str "degraded" => pure State.ColKind.degraded
+      | other => pure (State.ColKind.nested (← listOf strOf other))
+    let cols ← listOf (fun p => do let a ← arrOf p; pure (← strOf a[0]!, ← kindOf a[1]!)) (← fld j "cols")
+    let ops ← listOf (fun o => do
+      match (← strOf (← fld o "op")) with
+      | "rowOp" => pure State.KOp.rowOp
+      | "addField" => pure (State.KOp.addField (← strOf (← fld o "nest")) (← strOf (← fld o "field")))
+      | "dropField" => pure (State.KOp.dropField (← strOf (← fld o "nest")) (← strOf (← fld o "field")))
+      | "addNested" => pure (State.KOp.addNested (← strOf (← fld o "name")) (← listOf strOf (← fld o "fields")))
+      | "addBase" => pure (State.KOp.addBase (← strOf (← fld o "name")))
+      | "selectCols" => pure (State.KOp.selectCols (← listOf strOf (← fld o "names")))
+      | x => throw s!"bad kind op {x}") (← fld j "ops")
+    let F : State.FKind := { isNestedFrame := true, cols := cols }
+    let R := F.run ops
+    let enc : State.ColKind → Json := fun k => match k with
+      | .base => .str "base" | .degraded => .str "degraded" | .nested fs => jList Json.str fs
+    pure (Json.mkObj [("isNestedFrame", .bool R.isNestedFrame),
+                      ("cols", jList (fun (p : String × State.ColKind) => Json.arr #[.str p.1, enc p.2]) R.cols),
+                      ("nested_columns", jList Json.str R.nestedColumns)], .null)
+  | "io.readCols" => do
+    let schema ← listOf (fun p => do
+      let a ← arrOf p
+      match a[1]! with
+      | .str "base" => pure (← strOf a[0]!, IO.FileCol.base)
+      | other => pure (← strOf a[0]!, IO.FileCol.nest (← listOf strOf other))) (← fld j "schema")
+    let colStrs ← optOf (listOf strOf) (fldD j "columns" .null)
+    -- the text of a request is split on the dot unless it names a column of the file as it is
+    let toReq := fun (c : String) =>
+      if schema.any (·.1 == c) then IO.Req.whole c
+      else match c.splitOn "." with
+        | [n, f] => IO.Req.leaf n f
+        | _ => IO.Req.whole c
+    let columns := colStrs.map (·.map toReq)
+    let reject ← listOf strOf (fldD j "reject" (.arr #[]))
+    let enc : IO.OutCol → Json := fun c => match c with
+      | .base n => Json.arr #[.str n, .str "base"]
+      | .plain n => Json.arr #[.str n, .str "plain"]
+      | .nested n fs => Json.arr #[.str n, jList Json.str fs]
+    pure (resJson ((jList enc) <$> IO.readParquetCols schema columns reject), .null)
   | "dtype.parse" => do
     let str ← strOf (← fld j "string")
     let table ← listOf (fun p => do let a ← arrOf p; pure ((← strOf a[0]!).toList, ← strOf a[1]!)) (← fld j "aliases")
@@ -228,7 +274,7 @@ def handleLine2 (line : String) : String :=
     let id := fldD j "id" .null
     match (do
         let op ← strOf (← fld j "op")
-        if op.startsWith "frame." || op.startsWith "dtype." || op.startsWith "names." then runFrameOp op j else runOp op j : P (Json × Json)) with
+        if op.startsWith "frame." || op.startsWith "dtype." || op.startsWith "names." || op.startsWith "kinds." || op.startsWith "io." then runFrameOp op j else runOp op j : P (Json × Json)) with
     | .ok (m, sp) => (Json.mkObj [("id", id), ("model", m), ("spec", sp)]).compress
     | .error e => (Json.mkObj [("id", id), ("bad", .str e)]).compress
 
